@@ -478,8 +478,9 @@ pub fn run(cfg: &Cfg) -> i32 {
     let _ = crate::keys::pool();
     let cases = gen_cases(cfg);
     let budget = cfg.tier.pick(Duration::from_secs(240), Duration::from_secs(1500));
-    let ev = par_run(cfg, cases.len() as u64, budget, |w, i| cases.get(i as usize).map(|c| run_case(w, c)));
+    let mut ev = par_run(cfg, cases.len() as u64, budget, |w, i| cases.get(i as usize).map(|c| run_case(w, c)));
     FIX.with(|m| m.borrow_mut().clear());
+    crate::memcheck::run(cfg, &mut ev, crate::memcheck::Leg { processes: 16, modulus: 16, limit: Duration::from_secs(900) });
     let mut required = Vec::new();
     for f in ["none", "bitflip", "truncate", "extend", "substitute-same-length", "substitute-other-length", "endless", "transport-error", "unlisted-name"] {
         required.push(format!("fault={f}"));
